@@ -116,7 +116,7 @@ fn string_cases(s: &str) -> Vec<Case> {
                 run = 0;
             }
         }
-        if touches || maxrun >= q || s.contains('\0') || s.contains('\r') {
+        if touches || maxrun >= q || s.contains('\r') {
             continue;
         }
         let mut body = String::new();
@@ -434,7 +434,7 @@ pub fn run(ctx: &Ctx) -> (Acc, String, bool) {
                 }
                 2 => {
                     let n = 1 + r.below(12);
-                    let s: String = (0..n).map(|_| *r.pick(&['a', 'b', ' ', '"', '\\', '\n', '\t', 'é', 'ß', '€', '😀', '{', '}', 'u', '\'', '@'])).collect();
+                    let s: String = (0..n).map(|_| *r.pick(&['a', 'b', ' ', '"', '\\', '\n', '\t', 'é', 'ß', '€', '😀', '{', '}', 'u', '\'', '@', '\0', '\u{1}', '\u{a0}'])).collect();
                     cases.extend(string_cases(&s));
                 }
                 _ => {
